@@ -543,3 +543,279 @@ Example C11_ex_kahn_modes :
   kahn_mode (helper_mode H_stream_unary) = true /\ kahn_mode (helper_mode H_stream_stream) = false /\
   kahn_mode (ideal_mode (helper_mode H_stream_stream)) = true.
 Proof. repeat split; reflexivity. Qed.
+
+
+(* ======================================================================================================
+   GAP CLOSING (Proofs/C11GapA.v — clause-by-clause table of the property text against the theorems above —,
+   Proofs/C11GapB.v; new definitions in Model/C11GapDefs.v).  Nothing above is changed.
+   ====================================================================================================== *)
+From BP Require Import Model.C11GapDefs Proofs.C11GapA.
+
+(* ---- clause (1), known finding C11-K3: "through the generated client stub" is through an INSTANCE.  ServiceStub.__init__
+   stores self.channel / self.timeout / self.deadline / self.metadata; getattr on an instance finds these before the class
+   body ([stub_getattr], [call_inst], Model/C11GapDefs.v).  C11_routes / C11_payload / C11_unimplemented hold of the instance
+   call under the exact extra side condition shadowedb (m_py m) = false: the Python method name is not one of the four ---- *)
+Theorem C11_routes_instance : forall svc m,
+  names_distinct svc -> pynames_distinct svc -> In m (s_methods svc) -> shadowedb (m_py m) = false ->
+  stub_getattr svc (m_py m) = Some (AttrMethod (stub_method svc m)) /\
+  dispatch (mapping svc) (sd_route (stub_method svc m)) = Some (handler_entry_of m) /\
+  assoc_last (base_adapters svc) (h_rpc (handler_entry_of m)) = Some (m_cs m, m_ss m) /\
+  (forall m', In m' (s_methods svc) ->
+     dispatch (mapping svc) (route svc m') = Some (handler_entry_of m) -> m' = m).
+Proof. exact routes_inst. Qed.
+Print Assumptions C11_routes_instance.
+
+Theorem C11_payload_instance : forall svc im skw ckw m h a,
+  names_distinct svc -> owns svc m -> shadowedb (m_py m) = false ->
+  im (m_py m) = Some h -> arg_ok m a -> handler_ok m h (hin_of a) ->
+  call_inst svc im skw (m_py m) a ckw =
+    Some (CallObs (expected_obs svc m skw ckw a (produced (m_ss m) h (hin_of a)))).
+Proof. exact payload_inst. Qed.
+Print Assumptions C11_payload_instance.
+
+Theorem C11_unimplemented_instance : forall svc im skw ckw m a,
+  names_distinct svc -> owns svc m -> shadowedb (m_py m) = false ->
+  im (m_py m) = None -> arg_ok m a ->
+  call_inst svc im skw (m_py m) a ckw =
+    Some (CallObs (expected_obs svc m skw ckw a ([], Some ST_UNIMPLEMENTED))).
+Proof. exact unimplemented_inst. Qed.
+Print Assumptions C11_unimplemented_instance.
+
+(* off the four names the instance call IS the call of Model/Grpc.v: every theorem above transfers *)
+Theorem C11_instance_call_agrees : forall svc im skw py a ckw,
+  shadowedb py = false -> call_inst svc im skw py a ckw = option_map CallObs (call svc im skw py a ckw).
+Proof. exact call_inst_agrees. Qed.
+Print Assumptions C11_instance_call_agrees.
+
+(* the side condition is needed: rpc Timeout.  Every hypothesis of C11_payload holds and the class-body model lets the call
+   through, the instance call is a TypeError (nothing reaches channel.request, no handler runs), while the server side alone
+   still serves the route (C11_server_side does not depend on the stub) *)
+Theorem C11_shadowed_instance_refuted :
+  names_distinct shadow_svc_g /\ pynames_distinct shadow_svc_g /\ In m_Timeout (s_methods shadow_svc_g) /\
+  im_one (m_py m_Timeout) = Some h_one /\ arg_ok m_Timeout (ArgOne a_msg) /\
+  handler_ok m_Timeout h_one (hin_of (ArgOne a_msg)) /\
+  shadowedb (m_py m_Timeout) = true /\
+  call shadow_svc_g im_one kw0 (m_py m_Timeout) (ArgOne a_msg) kw0 =
+    Some (expected_obs shadow_svc_g m_Timeout kw0 kw0 (ArgOne a_msg) ([o_msg], None)) /\
+  call_inst shadow_svc_g im_one kw0 (m_py m_Timeout) (ArgOne a_msg) kw0 = Some CallTypeError /\
+  serve shadow_svc_g im_one (route shadow_svc_g m_Timeout) [snd a_msg] =
+    SOut [(m_py m_Timeout, InOne (Some a_msg))] [snd o_msg] None.
+Proof. exact shadowed_inst_witness. Qed.
+Print Assumptions C11_shadowed_instance_refuted.
+
+(* ... and it fails for ALL four names, in every service, for every argument, handler and keyword arguments *)
+Theorem C11_shadowed_always_typeerror : forall svc im skw py a ckw,
+  shadowedb py = true -> call_inst svc im skw py a ckw = Some CallTypeError /\ stub_getattr svc py = Some AttrData.
+Proof. exact shadowed_always_typeerror. Qed.
+Print Assumptions C11_shadowed_always_typeerror.
+
+Theorem C11_shadowed_iff : forall py, shadowedb py = true <-> In py [key_channel; key_timeout; key_deadline; key_metadata].
+Proof. exact shadowedb_iff. Qed.
+Print Assumptions C11_shadowed_iff.
+
+(* C11_routes_exact through an instance: every RPC is reachable through the instance attribute named after it IF AND ONLY IF
+   the Python names are pairwise distinct (K8) AND none is one of the four instance attributes (C11-K3) *)
+Theorem C11_instance_exact : forall svc, names_distinct svc ->
+  ((forall m, In m (s_methods svc) -> stub_getattr svc (m_py m) = Some (AttrMethod (stub_method svc m)))
+   <-> (pynames_distinct svc /\ unshadowedb svc = true)).
+Proof. exact inst_exact. Qed.
+Print Assumptions C11_instance_exact.
+
+Theorem C11_kwargs_passed_instance : forall svc im skw py a ckw o,
+  call_inst svc im skw py a ckw = Some (CallObs o) -> ri_kw (ob_req o) = resolve_kwargs skw ckw.
+Proof. exact kwargs_passed_inst. Qed.
+Print Assumptions C11_kwargs_passed_instance.
+
+(* ---- clause (1) "exactly the handler for the same RPC, once", for ALL behaviours: whatever the handler bodies do (wrong
+   classes, None, generators where coroutines are expected), whatever the argument, colliding Python names or not - at most ONE
+   handler body runs, and it is the one resolved under the Python name that was called ---- *)
+Theorem C11_call_at_most_once : forall svc im skw py a ckw o,
+  names_distinct svc -> call svc im skw py a ckw = Some o ->
+  ob_trace o = [] \/ exists inp, ob_trace o = [(py, inp)].
+Proof. exact call_at_most_once. Qed.
+Print Assumptions C11_call_at_most_once.
+
+(* ... and what reaches channel.request is the route / cardinality / reply class of ONE RPC of this service that has the called
+   Python name (never a foreign route), with the resolved keyword arguments *)
+Theorem C11_call_is_some_method : forall svc im skw py a ckw o,
+  call svc im skw py a ckw = Some o ->
+  exists m, In m (s_methods svc) /\ m_py m = py /\
+    ri_route (ob_req o) = route svc m /\ ri_card (ob_req o) = mapping_card m /\ ri_resp_ty (ob_req o) = m_out m /\
+    ri_kw (ob_req o) = resolve_kwargs skw ckw.
+Proof. exact call_is_some_method. Qed.
+Print Assumptions C11_call_is_some_method.
+
+(* server side, any client, any bytes: at most one handler body, that of an RPC with the route that was opened *)
+Theorem C11_serve_at_most_once : forall svc im r bs,
+  so_trace (serve svc im r bs) = [] \/
+  exists m cs ss, In m (s_methods svc) /\ route svc m = r /\
+    assoc_last (base_adapters svc) (m_py m) = Some (cs, ss) /\
+    so_trace (serve svc im r bs) = [(m_py m, adapter_input cs (map (decode_as (m_in m)) bs))].
+Proof. exact serve_trace. Qed.
+Print Assumptions C11_serve_at_most_once.
+
+(* ---- routes: uniqueness, and the converse of C11_unknown_route ---- *)
+Theorem C11_route_injective : forall svc m m',
+  names_distinct svc -> In m (s_methods svc) -> In m' (s_methods svc) -> route svc m = route svc m' -> m = m'.
+Proof. exact route_injective. Qed.
+Print Assumptions C11_route_injective.
+
+Theorem C11_route_known_iff : forall svc r,
+  (exists e, dispatch (mapping svc) r = Some e) <-> stub_known_route svc r = true.
+Proof. exact route_known_iff. Qed.
+Print Assumptions C11_route_known_iff.
+
+Theorem C11_dispatch_is_some_method : forall svc r e,
+  dispatch (mapping svc) r = Some e -> exists m, In m (s_methods svc) /\ route svc m = r /\ e = handler_entry_of m.
+Proof. exact dispatch_some_method. Qed.
+Print Assumptions C11_dispatch_is_some_method.
+
+(* ---- clauses (6), (7): status in BOTH directions: the call ends with GRPCError(s) iff the handler raised s (so an overridden
+   method answers UNIMPLEMENTED only if its own body raises it), normally iff the handler ended normally, never otherwise; and
+   the messages are the handler's ---- *)
+Theorem C11_status_iff : forall svc im skw ckw m h a,
+  names_distinct svc -> owns svc m ->
+  im (m_py m) = Some h -> arg_ok m a -> handler_ok m h (hin_of a) ->
+  exists o, call svc im skw (m_py m) a ckw = Some o /\
+    (forall s, cr_end (ob_res o) = CGrpc s <-> snd (produced (m_ss m) h (hin_of a)) = Some s) /\
+    (cr_end (ob_res o) = CDone <-> snd (produced (m_ss m) h (hin_of a)) = None) /\
+    cr_end (ob_res o) <> CExc /\
+    cr_msgs (ob_res o) = fst (produced (m_ss m) h (hin_of a)).
+Proof. exact status_iff. Qed.
+Print Assumptions C11_status_iff.
+
+(* C11_unimplemented under the weakest name condition (the surviving method of a colliding pair) *)
+Theorem C11_unimplemented_owner : forall svc im skw ckw m a,
+  names_distinct svc -> owns svc m -> im (m_py m) = None -> arg_ok m a ->
+  call svc im skw (m_py m) a ckw = Some (expected_obs svc m skw ckw a ([], Some ST_UNIMPLEMENTED)).
+Proof. exact unimplemented_owner. Qed.
+Print Assumptions C11_unimplemented_owner.
+
+(* ---- every hypothesis of the headline theorems is decidable: boolean forms (Model/C11GapDefs.v) ---- *)
+Theorem C11_hypotheses_decidable : forall svc m a h inp,
+  (names_distinctb svc = true <-> names_distinct svc) /\
+  (pynames_distinctb svc = true <-> pynames_distinct svc) /\
+  (ownsb svc m = true <-> owns svc m) /\
+  (arg_okb m a = true <-> arg_ok m a) /\
+  (handler_okb m h inp = true <-> handler_ok m h inp).
+Proof.
+  intros svc m a h inp.
+  exact (conj (names_distinctb_iff svc) (conj (pynames_distinctb_iff svc) (conj (ownsb_iff svc m)
+        (conj (arg_okb_iff m a) (handler_okb_iff m h inp))))).
+Qed.
+Print Assumptions C11_hypotheses_decidable.
+
+(* ---- non-vacuity of the gap theorems ---- *)
+(* the probe service (4 methods, all four cardinalities) meets the instance hypotheses, evaluated *)
+Example C11_ex_gap_booleans :
+  names_distinctb ex_svc = true /\ pynames_distinctb ex_svc = true /\ unshadowedb ex_svc = true /\
+  forallb (ownsb ex_svc) (s_methods ex_svc) = true /\
+  unshadowedb shadow_svc_g = false /\ pynames_distinctb collide = false /\
+  ownsb collide m_get_foo = true /\ ownsb collide m_GetFoo = false /\
+  shadowedb (m_py m_get_foo) = false.
+Proof. repeat split; vm_compute; reflexivity. Qed.
+(* an instance call of the bidirectional probe method: three requests in, two responses and NOT_FOUND out *)
+Example C11_ex_instance_call :
+  option_map (fun r => match r with CallObs o => Some (ob_res o) | CallTypeError => None end)
+     (call_inst ex_svc ex_impl (Kw (Some 1) None None) [x6d; x73; x73]
+                (ArgIter [ex_in x01; ex_in x02; ex_in x03]) (Kw None (Some 2) None))
+    = Some (Some (CRes [ex_out x01; ex_out x02] (CGrpc 5))) /\
+  arg_okb (Method [x4d; x53; x53] [x6d; x73; x73] true true (fst (ex_in x00)) (fst (ex_out x00)))
+          (ArgIter [ex_in x01; ex_in x02; ex_in x03]) = true /\
+  handler_okb (Method [x4d; x53; x53] [x6d; x73; x73] true true (fst (ex_in x00)) (fst (ex_out x00)))
+          (HGen (fun _ => ([ex_out x01; ex_out x02], Some 5))) (InMany [ex_in x01; ex_in x02; ex_in x03]) = true.
+Proof. repeat split; vm_compute; reflexivity. Qed.
+(* C11_call_at_most_once / C11_call_is_some_method on a call whose handler is NOT handler_ok (yields a message of the wrong class): one body ran, UNKNOWN *)
+Example C11_ex_bad_handler_once :
+  option_map (fun o => (ob_trace o, ob_res o))
+    (call collide (fun _ => Some (HGen (fun _ => ([a_msg], None)))) kw0 (m_py m_get_foo) (ArgOne a_msg) kw0)
+    = Some ([(m_py m_get_foo, InOne (Some a_msg))], CRes [] (CGrpc 2)) /\
+  handler_okb m_get_foo (HGen (fun _ => ([a_msg], None))) (InOne (Some a_msg)) = false /\
+  stub_known_route collide (route collide m_GetFoo) = true /\ stub_known_route collide [x2f; x78] = false.
+Proof. repeat split; vm_compute; reflexivity. Qed.
+
+
+(* ---- second group (Proofs/C11GapB.v) ---- *)
+From BP Require Import Proofs.C11GapB.
+
+(* what a call returns for ANY handler body installed under m's Python name (handler_ok or not): the adapter's run, grpclib's
+   send checks for the cardinality of the entry, the client's reading - the general form behind C11_payload *)
+Theorem C11_call_general : forall svc im skw ckw m h a,
+  names_distinct svc -> owns svc m -> resolve_handler svc im (m_py m) = Some h -> arg_ok m a ->
+  call svc im skw (m_py m) a ckw =
+    Some (Obs (RInfo (route svc m) (mapping_card m) (m_in m) (m_out m) (resolve_kwargs skw ckw))
+              (so_trace (so_of m h (hin_of a)))
+              (client_recv (stub_helper m) (m_out m) (so_of m h (hin_of a)))).
+Proof. exact call_general. Qed.
+Print Assumptions C11_call_general.
+
+(* clause (3): handler_ok is EXACT.  Under the other hypotheses of C11_payload_owner the observation is the expected one - m's
+   handler ran once on the caller's requests and the caller received exactly what it produced, in order, then its status - IF AND
+   ONLY IF handler_ok: a reply of another class, `return None`, or an async generator under a unary reply all lose it *)
+Theorem C11_payload_iff_handler_ok : forall svc im skw ckw m h a,
+  names_distinct svc -> owns svc m -> im (m_py m) = Some h -> arg_ok m a ->
+  (call svc im skw (m_py m) a ckw = Some (expected_obs svc m skw ckw a (produced (m_ss m) h (hin_of a)))
+   <-> handler_ok m h (hin_of a)).
+Proof. exact payload_iff_handler_ok. Qed.
+Print Assumptions C11_payload_iff_handler_ok.
+
+(* clause (2): arg_ok is needed for "a request equal to what the caller sent".  A unary call with a message of ANOTHER class: the
+   unary helpers pass type(request) as request_type, the client codec accepts it, the server decodes the same bytes as the
+   declared class - the handler runs on an object that is not the caller's *)
+Theorem C11_arg_wrong_class_refuted :
+  names_distinct svc_one /\ pynames_distinct svc_one /\ In m_GetFoo (s_methods svc_one) /\
+  arg_okb m_GetFoo (ArgOne o_msg) = false /\
+  exists o, call svc_one im_one kw0 (m_py m_GetFoo) (ArgOne o_msg) kw0 = Some o /\
+            ri_req_ty (ob_req o) = fst o_msg /\
+            ob_trace o = [(m_py m_GetFoo, InOne (Some (m_in m_GetFoo, snd o_msg)))] /\
+            (m_in m_GetFoo, snd o_msg) <> o_msg /\
+            ob_trace o <> [(m_py m_GetFoo, hin_of (ArgOne o_msg))].
+Proof. exact arg_wrong_class_witness. Qed.
+Print Assumptions C11_arg_wrong_class_refuted.
+
+(* clauses (2)/(3) at the level of OBJECTS (quantifier "for all request values"): for ANY class map, serialiser, per-class parser
+   and normal form such that parse (class v) (bytes v) = Some (nf v) on the objects in question - which is what C01_roundtrip /
+   C01_roundtrip_reachable prove of betterproto's bytes / parse with nf = norm_obj - the handler receives a message that parses
+   to the normal form of the caller's object, and the caller one that parses to the normal form of the handler's *)
+Theorem C11_payload_objects : forall (O : Type) (cls : O -> str) (ser : O -> list byte) (par : str -> list byte -> option O)
+    (nf : O -> O) svc im skw ckw m f (req resp : O),
+  names_distinct svc -> owns svc m -> m_cs m = false -> m_ss m = false ->
+  cls req = m_in m -> cls resp = m_out m -> rt_ok cls ser par nf req -> rt_ok cls ser par nf resp ->
+  im (m_py m) = Some (HCoro f) -> f (InOne (Some (msg_of cls ser req))) = RetMsg (msg_of cls ser resp) ->
+  exists o x y, call svc im skw (m_py m) (ArgOne (msg_of cls ser req)) ckw = Some o /\
+    ob_trace o = [(m_py m, InOne (Some x))] /\ obj_of par x = Some (nf req) /\
+    ob_res o = CRes [y] CDone /\ obj_of par y = Some (nf resp).
+Proof. exact @payload_objects. Qed.
+Print Assumptions C11_payload_objects.
+
+Theorem C11_payload_objects_stream : forall (O : Type) (cls : O -> str) (ser : O -> list byte)
+    (par : str -> list byte -> option O) (nf : O -> O) svc im skw ckw m g (reqs resps : list O) st,
+  names_distinct svc -> owns svc m -> m_cs m = true -> m_ss m = true ->
+  Forall (fun v => cls v = m_in m) reqs -> Forall (fun v => cls v = m_out m) resps ->
+  Forall (rt_ok cls ser par nf) reqs -> Forall (rt_ok cls ser par nf) resps ->
+  im (m_py m) = Some (HGen g) -> g (InMany (map (msg_of cls ser) reqs)) = (map (msg_of cls ser) resps, st) ->
+  exists o, call svc im skw (m_py m) (ArgIter (map (msg_of cls ser) reqs)) ckw = Some o /\
+    ob_trace o = [(m_py m, InMany (map (msg_of cls ser) reqs))] /\
+    map (obj_of par) (map (msg_of cls ser) reqs) = map (fun v => Some (nf v)) reqs /\
+    ob_res o = CRes (map (msg_of cls ser) resps) (end_of st) /\
+    map (obj_of par) (map (msg_of cls ser) resps) = map (fun v => Some (nf v)) resps.
+Proof. exact @payload_objects_stream. Qed.
+Print Assumptions C11_payload_objects_stream.
+
+(* non-vacuity: both directions of C11_payload_iff_handler_ok are inhabited (an ok handler; `return None` under a unary reply) *)
+Example C11_ex_handler_ok_exact :
+  handler_okb m_GetFoo h_one (InOne (Some a_msg)) = true /\
+  handler_okb m_GetFoo (HCoro (fun _ => RetNone)) (InOne (Some a_msg)) = false /\
+  option_map ob_res (call svc_one (fun _ => Some (HCoro (fun _ => RetNone))) kw0 (m_py m_GetFoo) (ArgOne a_msg) kw0)
+    = Some (CRes [] (CGrpc 2)) /\
+  ownsb svc_one m_GetFoo = true /\ arg_okb m_GetFoo (ArgOne a_msg) = true.
+Proof. repeat split; vm_compute; reflexivity. Qed.
+(* objects with a part the wire does not carry (normal form resets it): the round-trip hypothesis of C11_payload_objects *)
+Example C11_ex_objects :
+  let cls := fun v : str * list byte * bool => fst (fst v) in
+  let ser := fun v : str * list byte * bool => snd (fst v) in
+  let par := fun (t : str) (b : list byte) => Some (t, b, false) in
+  let nf := fun v : str * list byte * bool => (fst v, false) in
+  rt_ok cls ser par nf (t_In, [x08; x01], true) /\ cls (t_In, [x08; x01], true) = m_in m_GetFoo /\
+  nf (t_In, [x08; x01], true) <> (t_In, [x08; x01], true).
+Proof. cbv zeta. split; [reflexivity|]. split; [reflexivity | discriminate]. Qed.
